@@ -275,7 +275,11 @@ static void sc_locks(void) {
 static void sc_profiler(void) { PTimeProfiler *p = p_time_profiler_new(); if (p) { (void)p_time_profiler_elapsed_usecs(p); p_time_profiler_reset(p); } p_time_profiler_free(p); }
 
 static void sc_libloader(void) {
-	PLibraryLoader *l = p_library_loader_new("libm.so.6"), *bad = p_library_loader_new("/nonexistent/libvf.so"); pchar *e;
+	static const char *cands[] = { "/lib/x86_64-linux-gnu/libm.so.6", "/usr/lib/x86_64-linux-gnu/libm.so.6", "/lib64/libm.so.6", "/usr/lib64/libm.so.6", "/lib/libm.so.6" };
+	const char *path = cands[0]; int ci; PLibraryLoader *l, *bad, *notlib; pchar *e;
+	for (ci = 0; ci < 5; ci++) if (access(cands[ci], R_OK) == 0) { path = cands[ci]; break; }
+	l = p_library_loader_new(path); bad = p_library_loader_new("/nonexistent/libvf.so"); notlib = p_library_loader_new(inipath);      /* existing file that is not a library */
+	p_library_loader_free(notlib);
 	if (l) { (void)p_library_loader_get_symbol(l, "cos"); (void)p_library_loader_get_symbol(l, "no_such_symbol_vf"); e = p_library_loader_get_last_error(l); p_free(e); }
 	e = p_library_loader_get_last_error(NULL); p_free(e);
 	p_library_loader_free(bad); p_library_loader_free(l);
